@@ -12,7 +12,12 @@ Sections  `begin kind=server` (rest.NewServer + AddRoutes + engine.bindRoutes, n
   opt nf=<id|nil> | opt na=<id|nil>         => ok        (rest.WithNotFoundHandler / WithNotAllowedHandler, before the server is built)
   group [pfx=<group>] r=<m>,<path>,<id>…    => paths=<…>  (AddRoutes [WithPrefix]; the paths Routes() reports)
   bind                                      => ok|badmethod|badpath|dup   (engine.bindRoutes: first error)
-  req … as above
+  req … as above  [auth=<secret>]           (a JWT signed with <secret>)   outcome also: 401 | h=… vars=… mw=<i.j…>
+  slice s=<k> r=<m>,<path>,<id>…            => ok        (a caller-owned []Route)
+  add s=<k> [o=<opt>]… | addone r=… [o=<opt>]…   => routes=<m~path,…> slices=<k>=<m~path,…>;…
+      (Server.AddRoutes / AddRoute with the options in order; the same slice any number of times.
+       Model: `Api` (groups alias the caller's slices).  Monitor: the routes as the callers WROTE them, options
+       applied to a copy (`Group.regs`); every caller slice must read as written.)
 Sections  `begin kind=tree` (core/search.Tree directly, raw strings):
   tadd p=<route> h=<id|nil>   => ok|dup|dupslash|notfromroot|empty
   tsearch p=<route> n=<k>     => h=<id> vars=… | none          (distinct outcomes, sorted, ` | `-separated)
@@ -167,6 +172,71 @@ def monitorReq (tbl : Spec.Table) (hyp : Bool) (c : Spec.Custom) (m path : Strin
   let toks := if rooted path then some (cleanToks path) else none
   fmtVerdict c m (toks.getD []) impl (Spec.monitorObs tbl hyp c m toks (parseObs impl))
 
+
+/-! ### rest.Server public API: route options, listings, per-route settings -/
+
+def dropStr (n : Nat) (s : String) : String := String.ofList (s.toList.drop n)
+
+/-- one `o=<opt>` token: a RouteOption, or the number of `rest.WithMiddlewares` middlewares. -/
+def parseOpt (s : String) : Option (Option RouteOpt × Nat) :=
+  if s.startsWith "pfx=" then some (some (.pfx (dropStr 4 s)), 0)
+  else if s.startsWith "jwtt=" then
+    match (dropStr 5 s).splitOn "," with
+    | [a, b] => some (some (.jwtTransition a b), 0)
+    | _ => none
+  else if s.startsWith "jwt=" then some (some (.jwt (dropStr 4 s)), 0)
+  else if s.startsWith "to=" then (dropStr 3 s).toNat?.map fun n => (some (.timeout n), 0)
+  else if s.startsWith "mb=" then (dropStr 3 s).toNat?.map fun n => (some (.maxBytes n), 0)
+  else if s = "prio" then some (some .priority, 0)
+  else if s = "sse" then some (some .sse, 0)
+  else if s.startsWith "mw=" then (dropStr 3 s).toNat?.map fun n => (none, n)
+  else none
+
+/-- all `o=` tokens of an op: the route options in order and the middleware count; `none` = unparsable. -/
+def parseOpts (args : List String) : Option (List RouteOpt × Nat) :=
+  (args.filter (·.startsWith "o=")).foldl (fun acc a =>
+    match acc, parseOpt (dropStr 2 a) with
+    | some (os, n), some (some o, _) => some (os ++ [o], n)
+    | some (os, _), some (none, k) => some (os, k)
+    | _, _ => none) (some ([], 0))
+
+def fmtListing (regs : List Reg) : String := ",".intercalate (regs.map fun r => r.1 ++ "~" ++ r.2.1)
+
+def parseListing (s : String) : List (String × String) :=
+  if s = "" then [] else (s.splitOn ",").map fun e =>
+    (String.ofList (e.toList.takeWhile (· ≠ '~')), String.ofList ((e.toList.dropWhile (· ≠ '~')).drop 1))
+
+/-- a listing printed by the harness agrees with the routes expected: same methods, same paths; a path that is
+not rooted (the model keeps it uncleaned, Go's `path.Join` cleans it) only has to be not rooted. -/
+def sameListing (want : List Reg) (impl : List (String × String)) : Bool :=
+  want.length == impl.length && (want.zip impl).all fun (w, i) =>
+    w.1 == i.1 && (if rooted w.2.1 then w.2.1 == i.2 else !(rooted i.2))
+
+def parseSlices (s : String) : List (String × List (String × String)) :=
+  if s = "" then [] else (s.splitOn ";").map fun e =>
+    (String.ofList (e.toList.takeWhile (· ≠ '=')), parseListing (String.ofList ((e.toList.dropWhile (· ≠ '=')).drop 1)))
+
+def tokenOk (jwt : Option (String × String)) (auth : Option String) : Bool :=
+  match jwt with
+  | none => true
+  | some (a, b) => match auth with
+    | some t => t == a || (b != "" && t == b)
+    | none => false
+
+def fmtTrail (n : Nat) : String := ".".intercalate ((List.range n).map fun i => toString (i + 1))
+
+/-- the settings of the bound route (method, cleaned pattern): the first group that contains it. -/
+def lookupRMeta (rmeta : List (String × List String × Option (String × String) × Nat)) (m : String) (pats : List String) :
+    Option (Option (String × String) × Nat) :=
+  (rmeta.find? fun x => x.1 == m && x.2.1 == pats).map (·.2.2)
+
+/-- split a trailing ` mw=<trail>` token off an outcome. -/
+def splitTrail (o : String) : String × String :=
+  let ts := (o.splitOn " ").filter (· ≠ "")
+  match ts.find? (·.startsWith "mw=") with
+  | some t => (joinSp (ts.filter (· ≠ t)), dropStr 3 t)
+  | none => (o, "")
+
 structure St where
   pr : PatRouter := {}
   tbl : Spec.Table := []
@@ -176,24 +246,29 @@ structure St where
   opts : List RunOpt := []
   built : Bool := false
   served : Bool := false         -- a request was served already (late registrations)
-  groups : List Group := []
+  groups : List Group := []      -- every AddRoutes call as the caller wrote it (options + routes)
+  mws : List Nat := []           -- per group: how many rest.WithMiddlewares middlewares wrap its handlers
+  api : Api := {}                -- the aliasing model: caller slices + engine.routes
+  names : List String := []      -- names of the caller slices (position = index in `api.heap`)
+  written : List (List Reg) := []  -- the caller slices as written in the `slice` lines
+  rmeta : List (String × List String × Option (String × String) × Nat) := []  -- bound route ↦ (jwt, middlewares)
 
 def patKind (pats : List String) : String :=
   String.ofList (pats.map fun k => if isVar k then 'v' else if k = "" then 'r' else 'l')
 
 /-- all outcomes of `ServeHTTP` over all iteration orders. -/
-def serveAllX (pr : PatRouter) (method path : String) : List String :=
+def serveAllX (pr : PatRouter) (method path : String) (dec : H → Params → String := fmtHit) : List String :=
   let own : List (H × Params) :=
     match pr.core.trees.lookup method with
     | some root => if rooted path then nextAll (cleanToks path) root else []
     | none => []
   if own.isEmpty then [fmtResponse (pr.serveHTTP method path)]
-  else dedup (own.map fun (h, ps) => fmtHit h ps)
+  else dedup (own.map fun (h, ps) => dec h ps)
 
 def hasUpper (s : String) : Bool := s.toList.any Char.isUpper
 
 /-- one `req` line (router and server sections). -/
-def runReq (r : Report) (st : St) (sidx : Nat) (l : Line) (m p : String) : Report := Id.run do
+def runReq (r : Report) (st : St) (sidx : Nat) (l : Line) (m p : String) (auth : Option String := none) (srv : Bool := false) : Report := Id.run do
   let mut r := r
   let (implClean, outs) := match l.obs with
     | c :: rest => ((String.ofList (c.toList.drop 6)), splitBar rest)
@@ -208,9 +283,23 @@ def runReq (r : Report) (st : St) (sidx : Nat) (l : Line) (m p : String) : Repor
   else r := r.addCover "req-not-rooted"
   if !(validMethod m) then r := r.addCover "req-unsupported-method"
   let hyp := Spec.oneVarPerPosition st.tbl
-  let all := serveAllX st.pr m p
+  let toksO := if rooted p then some (cleanToks p) else none
+  -- the settings (WithJwt secrets, rest.WithMiddlewares count) of the routes a hit on handler `h` can belong to
+  let rmetaOf : H → List (Option (String × String) × Nat) := fun h =>
+    (((Spec.admissible st.tbl m (toksO.getD [])).filter (·.h == h)).filterMap fun x =>
+      lookupRMeta st.rmeta x.method x.pats).eraseDups
+  -- engine.bindRoute: the Authorize handler of a WithJwt group sits in front of the route handler
+  let dec : H → Params → String := fun h ps =>
+    match rmetaOf h with
+    | [(jwt, n)] =>
+      if !(tokenOk jwt auth) then "401" else if n > 0 then fmtHit h ps ++ " mw=" ++ fmtTrail n else fmtHit h ps
+    | _ => fmtHit h ps
+  let all := serveAllX st.pr m p dec
   let resp := st.pr.serveHTTP m p
-  let det := fmtResponse resp
+  let det := match resp with
+    | .route h ps => dec h ps
+    | _ => fmtResponse resp
+  if auth.isSome then r := r.addCover "req-with-jwt-token"
   -- correspondence
   if outs.isEmpty then r := r.mismatch sidx l.idx det "no-observation"
   if all.length ≤ 1 then
@@ -249,9 +338,43 @@ def runReq (r : Report) (st : St) (sidx : Nat) (l : Line) (m p : String) : Repor
   if hyp && outs.length > 1 then
     r := r.violation sidx l.idx s!"request {m} {p}: dispatch differs between runs [{" | ".intercalate outs}] on a table with one variable name per position"
   for o in outs do
-    match monitorReq st.tbl hyp (customOf st.pr) m p o with
-    | some msg => r := r.violation sidx l.idx s!"request {m} {p}: {msg}"
-    | none => pure ()
+    if o = "401" then
+      -- acceptable iff an admissible route was registered WithJwt and the token matches none of its secrets
+      let adm := Spec.admissible st.tbl m (toksO.getD [])
+      let ok := toksO.isSome && adm.any fun x =>
+        match lookupRMeta st.rmeta x.method x.pats with
+        | some (jwt, _) => !(tokenOk jwt auth)
+        | none => false
+      r := r.addCover "req-401-unauthorized"
+      if !ok then
+        let why := if adm.isEmpty then "no route of the method matches"
+          else s!"the preferred match [{",".intercalate (adm.map (fmtRoute (toksO.getD [])))}] was not registered with a secret that rejects the token [{auth.getD "none"}]"
+        r := r.violation sidx l.idx s!"request {m} {p}: 401 Unauthorized but {why}"
+    else
+      let (base, trail) := splitTrail o
+      match monitorReq st.tbl hyp (customOf st.pr) m p base with
+      | some msg => r := r.violation sidx l.idx s!"request {m} {p}: {msg}"
+      | none => pure ()
+      -- rest.Server: engine.notFoundHandler forces the status 404 unless the custom handler wrote one itself
+      match (base.splitOn " ").filter (· ≠ "") with
+      | [hk, ck] =>
+        if srv ∧ hk.startsWith "nf=" ∧ ck.startsWith "code=" then
+          let id := (dropStr 3 hk).toNat?.getD 0
+          if (dropStr 5 ck).toNat? ≠ some ((ownCode id).getD 404) then
+            r := r.violation sidx l.idx s!"request {m} {p}: the custom not-found handler nf={id} ran but the response status is [{dropStr 5 ck}], not [{(ownCode id).getD 404}] (no route matches: 404 unless the handler wrote a status itself)"
+      | _ => pure ()
+      match parseObs base with
+      | .hit h _ =>
+        let ms := rmetaOf h
+        if ms.any fun x => x.1.isSome then r := r.addCover "hit-jwt-route-token-accepted"
+        if trail ≠ "" then r := r.addCover "hit-behind-route-middlewares"
+        if !ms.isEmpty ∧ !(ms.any fun x => tokenOk x.1 auth && fmtTrail x.2 == trail) then
+          let regd := ms.map fun x => s!"jwt={(x.1.map fun ab => ab.1 ++ "," ++ ab.2).getD "off"} middlewares={fmtTrail x.2}"
+          r := r.violation sidx l.idx s!"request {m} {p}: handler h={h} ran [middlewares={trail} token={auth.getD "none"}] but its route was registered with [{" | ".intercalate regd}]"
+        if ms.isEmpty ∧ trail ≠ "" then
+          r := r.violation sidx l.idx s!"request {m} {p}: handler h={h} ran behind middlewares [{trail}] of another route"
+      | _ =>
+        if trail ≠ "" then r := r.violation sidx l.idx s!"request {m} {p}: route middlewares [{trail}] ran but no route handler [{o}]"
   return r
 
 def parseReg (s : String) : Option Reg :=
@@ -335,8 +458,11 @@ def runSection (r : Report) (s : Section) : Report := Id.run do
       let regs := (args.filter (·.startsWith "r=")).map fun a => parseReg (String.ofList (a.toList.drop 2))
       if regs.any Option.isNone ∨ regs.isEmpty then r := r.mismatch s.idx l.idx "bad-op" (joinSp l.op)
       else
-        let g : Group := { pfx := pfx, routes := regs.filterMap id }
-        st := { st with built := true, groups := st.groups ++ [g] }
+        let g : Group := { opts := pfx.toList.map .pfx, routes := regs.filterMap id }
+        -- a fresh caller slice that is added once
+        let api := (st.api.step (.slice g.routes)).step (.add st.api.heap.length g.opts)
+        st := { st with built := true, groups := st.groups ++ [g], mws := st.mws ++ [0], api := api,
+                        names := st.names ++ [""], written := st.written ++ [g.routes] }
         r := r.addCover (match pfx with
           | none => "group-no-prefix"
           | some x => if x = "" then "group-prefix-empty" else if !(rooted x) then "group-prefix-not-rooted"
@@ -361,10 +487,15 @@ def runSection (r : Report) (s : Section) : Report := Id.run do
               else if rooted i then r := r.mismatch s.idx l.idx s!"path-not-rooted={w}" s!"path={i}"
     | ["bind"] =>
       -- engine.bindRoutes(router)
-      let srv : Server := { router := st.pr, groups := st.groups }
-      let (srv', err) := srv.bindRoutes
-      let (tbl', sv) := Spec.bindTable st.tbl srv.regs
-      st := { st with built := true, pr := srv'.router, tbl := tbl' }
+      -- model: what the engine reads through its (possibly aliasing) groups now; monitor: the routes as the
+      -- callers wrote them with the options applied to a copy
+      let res := bindAll st.pr.core st.api.regs
+      let err := res.2
+      let specRegs := st.groups.flatMap Group.regs
+      let (tbl', sv) := Spec.bindTable st.tbl specRegs
+      let rmeta := (st.groups.zip st.mws).flatMap fun (g, n) =>
+        g.regs.filterMap fun x => if rooted x.2.1 then some (x.1, cleanToks x.2.1, g.featured.set.jwt, n) else none
+      st := { st with built := true, pr := { st.pr with core := res.1 }, tbl := tbl', rmeta := rmeta }
       r := r.addCover ("bind-" ++ fmtBind err)
       if fmtBind err ≠ joinSp l.obs then r := r.mismatch s.idx l.idx (fmtBind err) (joinSp l.obs)
       if fmtSpecReg sv ≠ joinSp l.obs then
@@ -374,7 +505,7 @@ def runSection (r : Report) (s : Section) : Report := Id.run do
       match arg "m=" args, arg "p=" args with
       | some m, some p =>
         if kvStr s.cfg "kind" = "server" then st := { st with built := true }
-        r := runReq r st s.idx l m p
+        r := runReq r st s.idx l m p (arg "auth=" args) (kvStr s.cfg "kind" = "server")
         st := { st with served := true }
       | _, _ => r := r.mismatch s.idx l.idx "bad-op" (joinSp l.op)
     | "tadd" :: args =>
@@ -438,6 +569,65 @@ def runSection (r : Report) (s : Section) : Report := Id.run do
                 r := r.violation s.idx l.idx s!"Tree.Search {p}: found [{o}] but the stored routes matching are [{",".intercalate (cands.map (fmtRoute tk))}]"
             | _ => r := r.violation s.idx l.idx s!"Tree.Search {p}: unexpected result [{o}]"
       | none => r := r.mismatch s.idx l.idx "bad-op" (joinSp l.op)
+    | "slice" :: args =>
+      -- the caller makes a []Route and keeps it under a name
+      let regs := (args.filter (·.startsWith "r=")).map fun a => parseReg (dropStr 2 a)
+      match arg "s=" args with
+      | some k =>
+        if regs.any Option.isNone ∨ regs.isEmpty ∨ st.names.contains k then r := r.mismatch s.idx l.idx "bad-op" (joinSp l.op)
+        else
+          let rs := regs.filterMap id
+          st := { st with api := st.api.step (.slice rs), names := st.names ++ [k], written := st.written ++ [rs] }
+          r := r.addCover "api-slice"
+          if joinSp l.obs ≠ "ok" then r := r.mismatch s.idx l.idx "ok" (joinSp l.obs)
+      | none => r := r.mismatch s.idx l.idx "bad-op" (joinSp l.op)
+    | kind :: args =>
+      if kind = "add" ∨ kind = "addone" then
+        -- Server.AddRoutes(slice k, opts...) / Server.AddRoute(r, opts...)
+        let k? := (arg "s=" args).bind fun k => st.names.idxOf? k
+        let one? := ((args.filter (·.startsWith "r=")).map fun a => parseReg (dropStr 2 a)).head?.join
+        match parseOpts args, (if kind = "add" then k?.isSome else one?.isSome) with
+        | some (opts, nmw), true =>
+          let (op, routes) : ApiOp × List Reg := match kind, k?, one? with
+            | "add", some k, _ => (.add k opts, st.written.getD k [])
+            | _, _, some x => (.addOne x opts, [x])
+            | _, _, _ => (.add 0 opts, [])
+          let reused := kind = "add" ∧ (st.groups.any fun g => g.routes == routes)
+          st := { st with built := true, api := st.api.step op, groups := st.groups ++ [{ opts := opts, routes := routes }],
+                          mws := st.mws ++ [nmw] }
+          -- coverage: the forms of the public API
+          r := r.addCover (if kind = "add" then "api-AddRoutes" else "api-AddRoute")
+          if reused then r := r.addCover "api-same-slice-added-again"
+          let npfx := (opts.filter fun o => match o with | .pfx _ => true | _ => false).length
+          r := r.addCover (if npfx = 0 then "api-no-prefix" else if npfx = 1 then "api-one-prefix" else "api-nested-prefixes")
+          if reused ∧ npfx > 0 then r := r.addCover "api-same-slice-under-another-prefix"
+          for o in opts do
+            r := r.addCover (match o with
+              | .pfx _ => "api-opt-WithPrefix" | .jwt _ => "api-opt-WithJwt" | .jwtTransition _ _ => "api-opt-WithJwtTransition"
+              | .timeout _ => "api-opt-WithTimeout" | .maxBytes _ => "api-opt-WithMaxBytes"
+              | .priority => "api-opt-WithPriority" | .sse => "api-opt-WithSSE")
+          if nmw > 0 then r := r.addCover "api-WithMiddlewares"
+          -- correspondence: the aliasing model
+          let modelRoutes := st.api.regs
+          let implRoutes := parseListing ((arg "routes=" l.obs).getD "?")
+          let implSlices := parseSlices ((arg "slices=" l.obs).getD "?")
+          if !(sameListing modelRoutes implRoutes) then
+            r := r.mismatch s.idx l.idx s!"routes={fmtListing modelRoutes}" (joinSp l.obs)
+          let named := (st.names.zip st.api.heap).filter fun x => x.1 ≠ ""
+          if named.length ≠ implSlices.length ∨ !((named.zip implSlices).all fun (w, i) => w.1 == i.1 && sameListing w.2 i.2) then
+            r := r.mismatch s.idx l.idx s!"slices={";".intercalate (named.map fun x => x.1 ++ "=" ++ fmtListing x.2)}" (joinSp l.obs)
+          -- monitor: registering a group changes neither another group nor a caller's slice
+          let specRoutes := st.groups.flatMap Group.regs
+          if !(sameListing specRoutes implRoutes) then
+            r := r.violation s.idx l.idx s!"{kind} #{st.groups.length}: Server.Routes() is [{fmtListing (implRoutes.map fun x => (x.1, x.2, none))}] but the routes as the callers wrote them (prefix + path, every group on its own copy) are [{fmtListing specRoutes}]"
+          for (k, w) in (st.names.zip st.written).filter fun x => x.1 ≠ "" do
+            match implSlices.lookup k with
+            | some i =>
+              if !(w.length == i.length && (w.zip i).all fun (a, b) => a.1 == b.1 && a.2.1 == b.2) then
+                r := r.violation s.idx l.idx s!"{kind} #{st.groups.length}: the caller's slice s={k} was modified: it now reads [{fmtListing (i.map fun x => (x.1, x.2, none))}], the caller wrote [{fmtListing w}]"
+            | none => r := r.violation s.idx l.idx s!"{kind}: the caller's slice s={k} is not reported"
+        | _, _ => r := r.mismatch s.idx l.idx "bad-op" (joinSp l.op)
+      else r := r.mismatch s.idx l.idx "bad-op" (joinSp l.op)
     | _ => r := r.mismatch s.idx l.idx "bad-op" (joinSp l.op)
   return r
 
